@@ -58,7 +58,8 @@ class TraceMachine(RuleBasedStateMachine):
         self.ctx = self.CTX
         self.trace = []
         self.failed = False
-        self.skip = self.ctx.over_budget() and not self.ctx.replaying
+        self.skip = (self.ctx.over_budget() and not self.ctx.replaying
+                     and self.ctx.failure is None)  # after a failure: let the shrinker replay
         self._cm = None
         self.dir = None
         if self.skip:
